@@ -12,14 +12,15 @@
                            "least member > p (or None iff none)" etc.
 
    Structure of the result.  The property text is FALSE of the code (and so of
-   the faithful model) in twelve input classes; each is refuted below on a
+   the faithful model) in ten input classes; each is refuted below on a
    concrete witness (…_refuted / c16_witness_…), listed in
-   known_findings.d/C16.json.  What is proved, for all values and all fuel:
+   known_findings.d/C16.json (two further classes, vi and vii, were fixed in
+   /repo by d9f1b31 and are now regression examples).  What is proved, for all values and all fuel:
      A. for every constructed sequence whatsoever: membership is the set of
         the state; get_first_point, get_next_point (p >= start - step),
         get_next_point_on_sequence, get_start_point agree with that set;
         get_prev_point / get_nearest_prev_point / get_stop_point agree with it
-        when the stop point is on the grid and p <= stop + step;
+        when the stop point is on the grid and p <= stop + step; no query raises;
      B. for every recurrence form outside the constructor defect classes
         (sane_input): the constructor succeeds and the set of the state is
         exactly [denote]; hence all queries agree with [denote];
@@ -105,8 +106,9 @@ Theorem c16_state_stop_unbounded : forall fuel s r,
   c_stop (s_core s) = None -> get_stop_point fuel s = Ok r -> r = None.
 Proof. exact stop_unbounded. Qed.
 
-(* the fuel hypothesis is discharged by an explicit bound, and the only
-   exception a query can raise is the TypeError of a stepped exclusion sequence *)
+(* the fuel hypothesis is discharged by an explicit bound, and no query ever
+   raises (since fix d9f1b31: `None in self.exclusions` is False and
+   get_nearest_prev_point no longer calls itself) *)
 Theorem c16_next_fuel : forall fuel s k p e,
   stepped s k -> c_stop (s_core s) = Some e -> Z.max 0 (e - p) < Z.of_nat fuel ->
   get_next_point fuel s p <> Err EFuel.
@@ -121,13 +123,21 @@ Theorem c16_next_never_raises : forall fuel s p e,
   get_next_point fuel s p = Err e -> e = EFuel.
 Proof. exact next_no_error. Qed.
 
-Theorem c16_prev_raises_only_typeerror : forall fuel s p e,
-  get_prev_point fuel s p = Err e -> e = EFuel \/ e = EType.
-Proof. exact prev_errors. Qed.
+Theorem c16_next_on_sequence_never_raises : forall fuel s p e,
+  get_next_point_on_sequence fuel s p = Err e -> e = EFuel.
+Proof. exact nos_no_error. Qed.
 
-Theorem c16_prev_total_without_stepped_exclusions : forall fuel s p,
-  no_stepped_excl s -> get_prev_point fuel s p <> Err EType.
-Proof. exact prev_no_type_error. Qed.
+Theorem c16_prev_never_raises : forall fuel s p e,
+  get_prev_point fuel s p = Err e -> e = EFuel.
+Proof. exact prev_no_error. Qed.
+
+Theorem c16_nearest_prev_never_raises : forall fuel s p e,
+  get_nearest_prev_point fuel s p = Err e -> e = EFuel.
+Proof. exact nprev_no_error. Qed.
+
+Theorem c16_stop_never_raises : forall fuel s e,
+  get_stop_point fuel s = Err e -> e = EFuel.
+Proof. exact stop_no_error. Qed.
 
 (* ------------------------------------------------------------------ *)
 (* B. the constructor: forms outside the defect classes denote the      *)
@@ -308,8 +318,8 @@ Proof.
 Qed.
 
 (* FULL STATEMENT 2 (property text, second sentence): every query agrees with
-   the set, for every query point, and never raises.  Proved part: section A
-   (range conditions; conditional on the call returning). *)
+   the set, for every query point.  Proved part: section A (range conditions;
+   conditional on the call returning; "never raises" is proved there in full). *)
 Definition c16_queries_all_points : Prop :=
   forall f items cs ce s fuel p,
     init f items cs ce = Ok s ->
@@ -317,9 +327,7 @@ Definition c16_queries_all_points : Prop :=
     (forall r, get_prev_point fuel s p = Ok r -> is_greatest_lt (seq_member s) p r) /\
     (forall r, get_nearest_prev_point fuel s p = Ok r -> is_greatest_lt (seq_member s) p r) /\
     (forall r, get_start_point fuel s = Ok r -> is_min (seq_member s) r) /\
-    (forall r, get_stop_point fuel s = Ok r -> is_max (seq_member s) r \/ c_stop (s_core s) = None) /\
-    get_prev_point fuel s p <> Err EType /\
-    get_nearest_prev_point fuel s p <> Err ERecursion.
+    (forall r, get_stop_point fuel s = Ok r -> is_max (seq_member s) r \/ c_stop (s_core s) = None).
 
 (* defect (viii): P3 in 1..10, get_next_point(-5) = None although 1 > -5 is a member *)
 Theorem c16_queries_all_points_refuted : ~ c16_queries_all_points.
@@ -352,20 +360,23 @@ Example c16_witness_next_oneoff_excluded :
             get_next_point 9 s 0 = Ok (Some 1).
 Proof. eexists. repeat split; vm_compute; reflexivity. Qed.
 
-(* (vi) TypeError through `None in self.exclusions`: P1!P2 in 1..10 *)
-Example c16_witness_prev_typeerror :
+(* (vi), FIXED by d9f1b31 — was TypeError through `None in self.exclusions`;
+   regression examples: P1!P2 in 1..10 now answers None where nothing is left *)
+Example c16_regress_prev_none_lookup :
   exists s, init (F_Pk 1) (Some [XS (F_Pk 2)]) 1 (Some 10) = Ok s /\
-            get_prev_point 9 s 2 = Err EType /\ get_nearest_prev_point 9 s 0 = Err EType.
+            get_prev_point 9 s 2 = Ok None /\ get_nearest_prev_point 9 s 0 = Ok None /\
+            get_prev_point 9 s 5 = Ok (Some 4).
 Proof. eexists. repeat split; vm_compute; reflexivity. Qed.
 
-Example c16_witness_stop_typeerror :
-  exists s, init (F_Pk 1) (Some [XS (F_Pk 2)]) 1 None = Ok s /\ get_stop_point 9 s = Err EType.
+Example c16_regress_stop_none_lookup :
+  exists s, init (F_Pk 1) (Some [XS (F_Pk 2)]) 1 None = Ok s /\ get_stop_point 9 s = Ok None.
 Proof. eexists. repeat split; vm_compute; reflexivity. Qed.
 
-(* (vii) unbounded self-recursion of get_nearest_prev_point at an excluded start *)
-Example c16_witness_nprev_recursion :
+(* (vii), FIXED by d9f1b31 — was unbounded self-recursion of
+   get_nearest_prev_point at an excluded start point *)
+Example c16_regress_nprev_excluded_start :
   exists s, init (F_Pk 1) (Some [XS (F_Pk 2)]) 1 (Some 10) = Ok s /\
-            get_nearest_prev_point 9 s 1 = Err ERecursion.
+            get_nearest_prev_point 9 s 1 = Ok None.
 Proof. eexists. repeat split; vm_compute; reflexivity. Qed.
 
 (* (xii) start/stop of an empty sequence are stale, not None: 5/P1 in 2..2 *)
